@@ -218,6 +218,18 @@ def run(prop, tier):
         for (i, client, plan, tag) in cand[:cap]:
             variants.append(variant(bsc, i, client, plan, tag, rng, prop))
     notes.append("%d fault positions measured over %d programs; %d executed" % (npos, len(bases), len(variants)))
+    if prop == "C04":
+        # crash points inside s3db_vacuum (its purge commit and its reclaim sweep): behaviours of Vacuum.tla, the vacuuming
+        # client killed after each of its first 0..12 mutations, recovery opens, the recovered table written again
+        import vac_family
+        vs, vd, vg, vnotes = vac_family.generate(workdir, "C04", tier, rng)
+        vs = [x for x in vs if "crash" in x["features"]]
+        for x in vs:
+            x["features"] = sorted(set(x["features"]) | {"rollback_or_failed_commit"})
+        variants += vs
+        states += vd
+        trans += vg
+        notes += vnotes
     vf.log("; ".join(notes))
     traces, info = vf.run_harness(binary, variants, workdir, name="pass2")
     vf.log("executed %d fault scenarios in %.1fs (crashes=%d hangs=%d)" % (len(variants), info["wall"], info["crashes"], info["hangs"]))
@@ -228,7 +240,7 @@ def run(prop, tier):
     coverage = {
         "evaluations": len(variants),
         "distinct_nontrivial": len({json.dumps(s["steps"], sort_keys=True) for s in variants}),
-        "rule": "one execution per (program, API call, fault position): programs are TLC behaviours of S3db.tla; positions are every k in 0..mutating requests of the call (C04) / every request index x {error, deadline} x {single, persistent} (C14), sampled per program; distinct = distinct step sequences",
+        "rule": "one execution per (program, API call, fault position): programs are TLC behaviours of S3db.tla (C04 also: Vacuum.tla, crash points inside s3db_vacuum); positions are every k in 0..mutating requests of the call (C04) / every request index x {error, deadline} x {single, persistent} (C14), sampled per program; distinct = distinct step sequences",
         "samples": [{"scenario": sample["id"], "features": sample["features"], "cfg": sample["cfg"],
                      "steps": [s for s in sample["steps"] if s["op"] in ("plan", "heal")] + sample["steps"][:10]}],
         "states": states, "transitions": trans, "traces_validated_against_impl": len(variants), "trace_events_validated": events,
